@@ -224,8 +224,13 @@ def run_kernel(k: dict, tier: str, scratch: str) -> dict:
             out["violations"].append(payload)
             return out
         # inconclusive: next rung
-    rec["verdict"] = "unconfirmed-at-every-rung"
-    out["errors"].append(f"kernel {k['name']}: not confirmed at any bound of {ladder}: {rec['rungs']}")
+    # neither confirmed nor refuted within the budget at any rung (the reachability twin was refuted, so the kernel is
+    # not vacuous): the kernel is OUTSIDE this run's claim - listed under skipped_over_budget with its rungs, never
+    # counted as confirmed.  (CrossHair can lose its grip on a leaf function after a behaviour-preserving rewrite,
+    # e.g. when the new code hashes the symbolic string; the property then rests on its SYMEX instances, whose
+    # universes hold the adversarial concrete names.)
+    rec["verdict"] = "inconclusive-at-every-rung"
+    out["inconclusive"] = [f"kernel {k['name']}: inconclusive at bounds {ladder}: {rec['rungs']}"]
     return out
 
 
@@ -250,6 +255,9 @@ def run_kernels(module: str, tier: str, names: list[str] | None = None) -> dict:
             r = run_kernel(k, tier, scratch)
             for key in ("kernels", "errors", "violations"):
                 agg[key].extend(r[key])
+            if r.get("inconclusive"):
+                agg["over_budget"] = True
+                agg["label"] = "; ".join(r["inconclusive"])
             for key in ("replays", "paths", "forks", "queries"):
                 agg[key] += r[key]
             agg["functions"].update(k.get("functions", []))
